@@ -312,6 +312,7 @@ func microTaskScheduler() {
 			select {
 			case <-microTaskFinished:
 			case <-recheck.C:
+				vhook.At("modules.mt.recheck")
 			}
 		}
 
